@@ -8,12 +8,19 @@ import (
 	"os"
 	"testing"
 
+	"github.com/massnetorg/mass-core/logging"
 	"pgregory.net/rapid"
 	"verifharness/ev"
 	"verifharness/ref"
 )
 
 func TestMain(m *testing.M) {
+	logDir := os.Getenv("VERIF_SCRATCH")
+	if logDir == "" {
+		logDir, _ = os.MkdirTemp("", "verif-log")
+		defer os.RemoveAll(logDir)
+	}
+	logging.Init(logDir, "wallet.log", "fatal", 1, true)
 	if err := ref.SelfTest(); err != nil {
 		fmt.Println("HARNESS-ERROR: reference self-test failed:", err)
 		os.Exit(3)
